@@ -91,6 +91,7 @@ def run_one(seed, preset=None, tier="quick", want_case=False):
                 v["corrupted_document"] = text
                 v["sig"]["rule"] = rule
                 v["sig"]["site"] = site
+                v["sig"]["where"] = site.split("/")[-1] if "/" in site else "selection"
                 viol.append(v)
             if not vs and site not in ("document",) and not site.startswith("op"):
                 nontrivial_n += 1
